@@ -45,6 +45,8 @@ def run(tier):
     # (growth) the contract over a whole run: the streaming consumer of Stream.tla, model-checked and bound to the real parsers
     common.stream_runs(rep, binary, PROP, ["parse_tls_plaintext", "parse_tls_raw_record", "parse_tls_encrypted", "tls_parser"], 7,
                        thorough=(tier == "thorough"))
+    # the two emergent properties for EVERY record size: TLAPS proof on the contract-level machine (MC_Stream: RefinesStreamLen)
+    common.tlaps_proof(rep, PROP, "StreamLen", "Safety (Spec => [](BoundedReads /\\ NeverReadsAhead)), every record size T >= 5")
     for c in cases[:2] + cases[len(cases) // 2:len(cases) // 2 + 1]:
         rep.sample({"fn": c["fn"], "input": c["input"], "expect": c["expect"], "pin": c["pin"]})
     return rep.finish("model_checking",
